@@ -416,7 +416,8 @@ macro "benign_close" : tactic => `(tactic|
   first
   | exact BenignS.refl _
   | exact Same.benignS ⟨rfl, rfl, rfl, rfl, rfl, rfl⟩
-  | exact benignS_after_fresh rfl rfl rfl rfl rfl rfl)
+  | exact benignS_after_fresh rfl rfl rfl rfl rfl rfl
+  | exact (same_emit _ _).benignS.trans (benignS_after_fresh rfl rfl rfl rfl rfl rfl))
 
 theorem benignS_enqueue (s : St) (a : Act) : BenignS s (enqueue s a).1 := by
   cases a <;> simp only [enqueue] <;>
